@@ -199,7 +199,7 @@ def prove(pid, timeout=3000):
             info["broken"].append("no Properties_%s*.v file" % pid)
             return info
         targets = [f[:-2] + ".vo" for f in pfiles]
-        rc, out, err = run(["make", "-f", "Makefile.coq", "-k", "-j%d" % NCPU, "COQC=timeout 1500 coqc"] + targets,
+        rc, out, err = run(["make", "-f", "Makefile.coq", "-k", "-j%d" % NCPU, "COQC=" + os.path.join(VERIF, "tools", "coqc_limited.sh")] + targets,
                            cwd=COQ, timeout=timeout)
         info["log"] = (out + err)[-6000:]
         cone = dep_cone(pfiles)
